@@ -719,7 +719,7 @@ def run(rep):
     opts = {"parts": ["sig", "connect", "corrupt", "meta"],
             "variations": QUICK_VARS if rep.quick else list(VARIATIONS),
             "bases": ["k2:T+T.flip", "k2:idle-odd"] if rep.quick else
-            ["k2:T+T.flip", "k3:rr", "k2:T+flipped(T)", "k2:idle-odd", "k3:idle-even", "k2:idle-even"],
+            ["k2:T+T.flip", "k3:rr", "k2:idle-odd", "k3:idle-even"],
             "all_perm_sims": not rep.quick, "meta_both": not rep.quick, "meta_max_members": rep.pick(2, 99)}
     # heavier trees first would need a cost model; interleave instead
     tasks = [(ch, opts) for ch in chunks(trees, 12)]
